@@ -11,7 +11,7 @@ SET_MUT = {'add', 'discard', 'remove', 'update', 'clear', 'pop'}
 
 
 def is_abstract(v):
-    return isinstance(v, (SymVal, SymObj, SymSeq, SymDictU, Closure, BoundMethod, ExcVal, SuperProxy))
+    return isinstance(v, (SymVal, SymObj, SymSeq, SymDictU, Closure, BoundMethod, ExcVal, SuperProxy, Stub, ModelObj))
 
 
 def deep_abstract(v, depth=0):
@@ -186,6 +186,11 @@ def binop_abstract(ex, op, a, b, node):
         s.nonempty = True if b else a.nonempty
         s.mapped = a.mapped
         s.len = a.len
+        return s
+    if isinstance(a, SymSeq) and isinstance(b, SymSeq) and isinstance(op, ast.Add):
+        s = SymSeq(ex.fresh_name(f'{a.label}+{b.label}'), None, prov='fresh', kind=a.kind)
+        s.concat_of = (a, b)
+        s.len = a.len + b.len + len(a.suffix) + len(b.suffix)
         return s
     if isinstance(a, list) and isinstance(b, SymSeq) and isinstance(op, ast.Add):
         raise Unsupported('list + symbolic sequence')
@@ -369,6 +374,8 @@ def _find_dunder(cls, name):
 
 
 def contains(ex, container, item, node):
+    if isinstance(container, ModelObj):
+        return container.m_contains(ex, item)
     if isinstance(container, SymVal) and container.sort == 'str':
         zi, si = to_z3(item)
         if si != 'str':
@@ -420,6 +427,8 @@ def contains(ex, container, item, node):
 
 # ---------------------------------------------------------------------------------------- subscripts
 def getitem(ex, obj, idx, node):
+    if isinstance(obj, ModelObj):
+        return obj.m_getitem(ex, idx)
     if isinstance(obj, (list, tuple, str)) and not isinstance(idx, (SymVal, SymObj)):
         if isinstance(idx, slice):
             if any(isinstance(x, (SymVal, SymObj)) for x in (idx.start, idx.stop, idx.step)):
@@ -508,6 +517,8 @@ def getitem(ex, obj, idx, node):
 
 
 def setitem(ex, obj, idx, v, node):
+    if isinstance(obj, ModelObj):
+        return obj.m_setitem(ex, idx, v)
     if isinstance(obj, (list, dict)):
         if is_abstract(idx) and not isinstance(idx, (SymObj,)):
             raise Unsupported('symbolic subscript store')
@@ -541,6 +552,8 @@ def setitem(ex, obj, idx, v, node):
 
 
 def delitem(ex, obj, idx, node):
+    if isinstance(obj, ModelObj):
+        return obj.m_delitem(ex, idx)
     if isinstance(obj, (list, dict)):
         if isinstance(idx, slice) and any(isinstance(x, SymVal) for x in (idx.start, idx.stop)):
             raise Unsupported('symbolic del slice')
@@ -773,6 +786,8 @@ def call_external(ex, f, args, kwargs, node):
         if isinstance(args[0], SymSeq):
             from . import loops
             return loops.copy_seq(ex, args[0])
+        if isinstance(args[0], SymObj) and 'list' in ex.method_stubs:
+            return ex.method_stubs['list'](ex, args[0], [], {})
         r = ex.iterate_concrete(args[0], node)
         return r if f is list else tuple(r)
     if f is dict:
@@ -827,6 +842,8 @@ def call_external(ex, f, args, kwargs, node):
     if f is iter:
         if isinstance(args[0], (list, tuple)):
             return iter(list(args[0]))
+        if isinstance(args[0], SymObj) and getattr(args[0], 'is_iterator', False):
+            return args[0]
         raise Unsupported('iter()')
     if f is next:
         if type(args[0]).__name__ in ('list_iterator', 'tuple_iterator'):
@@ -874,6 +891,8 @@ def call_external(ex, f, args, kwargs, node):
 
 
 def len_(ex, v, node):
+    if isinstance(v, ModelObj):
+        return v.m_len(ex)
     if isinstance(v, SymSeq):
         if v.suffix:
             return SymVal('int', v.len + len(v.suffix))
